@@ -148,6 +148,7 @@ type RecBackend struct {
 	Deliveries []*Sx    // BDAT deliveries (own goroutine)
 	wg         sync.WaitGroup
 	Baseline   int // runtime.NumGoroutine() while no delivery goroutine exists
+	NoSync     bool // do not wait for delivery goroutines (leftovers of an earlier, broken conversation exist)
 	// Gate, if set, is called at named points ("data-begin", "data-return") and may block.
 	Gate func(point string, n int)
 	nData int
@@ -204,7 +205,7 @@ func (b *RecBackend) NewSession(c *smtp.Conn) (smtp.Session, error) {
 // Wait waits for outstanding deliveries: the calls in progress, and go-smtp's
 // own delivery goroutines that may not have reached the backend yet.
 func (b *RecBackend) Wait() bool {
-	deadline := time.Now().Add(5 * time.Second)
+	deadline := time.Now().Add(3 * time.Second)
 	for {
 		done := make(chan struct{})
 		go func() { b.wg.Wait(); close(done) }()
@@ -228,6 +229,9 @@ func (b *RecBackend) Wait() bool {
 // the connection, and waits until every delivery goroutine go-smtp has started
 // (BDAT) has entered the backend, i.e. has taken its plan.
 func (b *RecBackend) SyncPoint() {
+	if b.NoSync {
+		return
+	}
 	for i := 0; i < 20000; i++ {
 		if runtime.NumGoroutine() <= b.Baseline {
 			return
